@@ -48,6 +48,15 @@ inductive Cell where
   | pbc (c : PBC)
   /-- an `OPB` / `BaseOPB` object: `_constraints`, `header`, `_groups`, `_numvar` -/
   | opb (constraints header groups : Addr) (numvar : Nat)
+  /-- a `cnfgen.graphs.Graph` object (w19b: arguments of the generators, Heap/Args.lean) -/
+  | graph (G : SimpleG)
+  /-- a `cnfgen.graphs.DirectedGraph` object -/
+  | dig (D : DiG)
+  /-- a `networkx.Graph` (`directed = false`) / `networkx.DiGraph` object on the vertices 1..n, its edges in order -/
+  | nx (directed : Bool) (n : Nat) (es : List (Nat × Nat))
+  /-- a `BipartiteEdgesVariables` / `UnaryMappingVariables` object: `self.G` HOLDS THE ADDRESS of the caller's graph
+  (observation O1: a borrowed reference, see `Cell.borrows`), `first` = the identifier before its first variable -/
+  | bgroup (g : Addr) (first : Nat)
   deriving Repr, DecidableEq, Inhabited
 
 /-- the addresses a cell holds -/
@@ -56,6 +65,12 @@ def Cell.refsOf : Cell → List Addr
   | .cnf cl hd gr _ => [cl, hd, gr]
   | .opb cl hd gr _ => [cl, hd, gr]
   | .view f d => [f, d]
+  | _ => []
+
+/-- the addresses a cell BORROWS: objects it refers to without owning them (they belong to the caller).
+Only the live group objects made from a bipartite graph have one: the caller's graph. -/
+def Cell.borrows : Cell → List Addr
+  | .bgroup g _ => [g]
   | _ => []
 
 abbrev Store := Array Cell
